@@ -507,7 +507,11 @@ class TransactionDecode:
         ver_row = json.loads(next(transactions))
         if ver_row[1] == 4:
             yield ver_row
-            yield from map(json.loads,transactions)
+            for transaction in transactions:
+                try:
+                    yield json.loads(transaction)
+                except json.JSONDecodeError:
+                    pass #a record that was only partly written when a run was interrupted
 
 class TransactionEncode:
     def __init__(self,restored):
